@@ -1,6 +1,7 @@
 import Gv.Oracle.Cli
 import Gv.Model.Fmt.Phylip
 import Gv.Model.Fmt.Stockholm
+import Gv.Model.Fmt.Paml
 import Gv.Model.Identical
 import Gv.Gen.FmtFacts
 /-!
@@ -19,6 +20,10 @@ Command-line glue of two commands of property C11 whose bytes are a function of 
   (`Model/Identical.lean` `identicalRows`; what it decides: `Props/C01` `identical_iff_same_records`, `identicalRows_spec`).
 
 * `goalign stats nalign -p`: the number of alignments of a Phylip input.
+
+* `goalign reformat paml`: the bytes of the PAML writer model for the FASTA alignment read.
+
+* `detchainsto`: the Stockholm file a Stockholm chain starts from is the one the writer model predicts.
 
 Needs the format facts: only the C11 oracle and the complete one link it.
 -/
@@ -130,8 +135,24 @@ def chainStoVerdict (stdin impl : String) : Ans :=
     ⟨"same", verdictOf (sto == stockholmText rows) "stockholm-file-differs-from-the-writer-model"⟩
   | _ => ⟨"same", "pass"⟩
 
+/-- `goalign reformat paml` (cmd/paml.go) on a FASTA input: the bytes of the PAML writer model (`Model/Fmt/Paml.lean`) for
+the alignment read; an input the FASTA reader refuses (no row, rows of different lengths) gives a failing status.
+`none` = not decided here (names repeated, non-ASCII, a FASTA text that is not one line per sequence) -/
+def expectedReformatPaml (stdin : String) : Option String :=
+  let rows := parseFasta (stdin.splitOn "|")
+  if String.join (rows.map fun x => ">" ++ x.1 ++ "|" ++ stringOfBytes x.2 ++ "|") != stdin then none else
+  if rows.any (fun r => r.2.any (· ≥ 128) || r.2.isEmpty || r.1.isEmpty || r.1.any (fun c => c.toNat ≥ 128 || c == ' ' || c == '~')) then none else
+  if (rows.map Prod.fst).eraseDups.length != rows.length then none else
+  if !wellFormed rows then some "rc=1 out=" else
+  let out := Fmt.Paml.write (rows.map fun r => (bytesOfString r.1, r.2))
+  some ("rc=0 out=" ++ ((stringOfBytes out).replace "\n" "|").replace "\t" "~")
+
 def handle : Handler := fun op args impl =>
   match op, args with
+  | "cli_lib", [stdin, "reformat", "paml"] =>
+    match expectedReformatPaml stdin with
+    | some m => some ⟨m, verdictOf (impl == m) "command-line-differs-from-library-model"⟩
+    | none => some ⟨"unmodelled", "na"⟩
   | "detchainsto", stdin :: _ => some (chainStoVerdict stdin impl)
   | "cli_lib", [stdin, "stats", "nalign", p] =>
     if p != "-p" && p != "--phylip" then none else
